@@ -434,6 +434,9 @@ def compare(pid, scen, model, cfg, max_fail=5):
         for b in ri["bangs"]:
             if b.startswith(pid + " "):
                 fails.append(Failure("property", pid, b, episode_prefix(irecs, i), ri["obs"], rm["obs"]))
+        for b in rm["bangs"]:
+            if b.startswith("SPEC HYP "):
+                fails.append(Failure("tie", pid, "a hypothesis of the property theorems is not met on a visited state: " + b[9:], episode_prefix(irecs, i), ri["obs"], rm["obs"]))
         spec_bang = [b for b in rm["bangs"] if b.startswith("SPEC " + pid + " ")]
         eq = obs_equal(ri["op"], ri["obs"], rm["obs"], cfg)
         if spec_bang and eq:
